@@ -32,7 +32,8 @@ LEVEL_TEXT = ('Every observed call of every built-in transition function must pr
               'cells the rules allow (scenery never moves), and pickndrop must equal a reference model predicting the '
               'complete next state. All (held item x front-cell kind x out-of-grid side, with a decoy key on the opposite '
               'edge) combinations are enumerated on 3x3 grids each run; recorded histories of the shipped key-door and '
-              'obstacle environments under a goal-directed/random policy mix are checked offline for a constant inventory.')
+              'obstacle environments under a goal-directed/random policy mix are checked offline for a constant inventory.'
+              ' Also: worlds with several boxes of different contents, equal keys and equal doors stepped through GridWorld.functional_step and compared with the reference cell by cell and content by content.')
 LEVEL_NOTE = ('Trusted: refmodel.ref_pickndrop and the multiset definition in dynmon.py; holdable flags are read from the '
               'objects. Random states/chains and histories are sampled.')
 SHARDS = {'quick': 4, 'thorough': 16}
